@@ -356,7 +356,8 @@ MANIFEST = {
                    "question incl. CNAME chains, ANY and negative answers): whenever the answering logic succeeds on the octet-level "
                    "Writer, the decoded answer and authority sections are those of the idealised never-truncating run of the same "
                    "logic — C05's object, equal to the RFC resolution algorithm `resolve` — and the decoded additional section is the "
-                   "idealised one minus some records of its optional tail (then only the OPT): this also closes C05's gap between "
+                   "idealised one minus some records of its optional tail (then only the OPT), and no record of that tail is in-bailiwick "
+                   "(owner at/below the owner of an authority record), so referral glue is never omitted: this also closes C05's gap between "
                    "the octet-level answer and `resolve`; c04_endings_on_the_octets + c04_clause_iv turn the premise into the decoded "
                    "bits: a response with TC clear and RCODE other than SERVFAIL is exactly one whose answering logic succeeded, "
                    "hence it differs from the complete answer only by omitted additional records; and — clause (iii) for answers that end Ok — if the finished TCP message fits the UDP space the UDP "
